@@ -75,12 +75,6 @@ func c13QROne(r *fw.Rec, mode qrref.Mode, l qrref.Level, n, forced int, viaWrite
 	return true
 }
 
-func dmShape(shape int) dmenc.SymbolShapeHint {
-	return []dmenc.SymbolShapeHint{dmenc.SymbolShapeHint_FORCE_NONE, dmenc.SymbolShapeHint_FORCE_SQUARE, dmenc.SymbolShapeHint_FORCE_RECTANGLE}[shape]
-}
-
-var dmShapeName = []string{"none", "square", "rectangle"}
-
 // c13DMLookup compares SymbolInfo_Lookup with the reference for one query.
 func c13DMLookup(r *fw.Rec, n, shape int, min, max *[2]int) bool {
 	var minD, maxD *gozxing.Dimension
